@@ -397,3 +397,54 @@ mod test {
         assert_eq!(ModifiedLines::from_str(src), Err(()));
     }
 }
+
+/// Thin wrappers used by the out-of-tree verification harness.
+#[cfg(rust_lang_rustfmt_verif)]
+pub mod verif_hooks {
+    use super::*;
+
+    /// Hunks of `make_diff` as (line_number, line_number_orig, lines); line kind 0 = Context,
+    /// 1 = Expected, 2 = Resulting.
+    pub fn make_diff_plain(
+        original: &str,
+        formatted: &str,
+        context_size: usize,
+    ) -> Vec<(u32, u32, Vec<(u8, String)>)> {
+        make_diff(original, formatted, context_size)
+            .into_iter()
+            .map(|m| {
+                let lines = m
+                    .lines
+                    .into_iter()
+                    .map(|l| match l {
+                        DiffLine::Context(s) => (0, s),
+                        DiffLine::Expected(s) => (1, s),
+                        DiffLine::Resulting(s) => (2, s),
+                    })
+                    .collect();
+                (m.line_number, m.line_number_orig, lines)
+            })
+            .collect()
+    }
+
+    /// (chunks, printed form, chunks re-parsed from the printed form)
+    pub fn modified_lines(
+        original: &str,
+        formatted: &str,
+    ) -> (
+        Vec<(u32, u32, Vec<String>)>,
+        String,
+        Option<Vec<(u32, u32, Vec<String>)>>,
+    ) {
+        fn plain(m: &ModifiedLines) -> Vec<(u32, u32, Vec<String>)> {
+            m.chunks
+                .iter()
+                .map(|c| (c.line_number_orig, c.lines_removed, c.lines.clone()))
+                .collect()
+        }
+        let ml = ModifiedLines::from(make_diff(original, formatted, 0));
+        let printed = ml.to_string();
+        let reparsed = printed.parse::<ModifiedLines>().ok();
+        (plain(&ml), printed, reparsed.as_ref().map(plain))
+    }
+}
